@@ -9,10 +9,15 @@ THEOREMS = [
     (P + "configuration_is_a_set_of_real_states_partial", "proved", "PARTIAL (2 of the 6 clauses of legality): for every chart, both engine models and every sequence of API operations the configuration is strictly ascending in document order, duplicate-free and holds no <history>/<initial> pseudo-state. Root active, parent closure, one child per compound / all children of a parallel, an atomic state: not proved (false of the code on charts with nested histories - finding hist-shared), decided per run"),
     (P + "root_is_never_exited_partial", "proved", "PARTIAL (half of clause 1): a step of either engine never removes the root from the configuration, on any chart"),
     (P + "exiting_never_orphans_partial", "proved", "PARTIAL (exit half of the parent clause): for every well-formed document, removing the exit set LargeMicroStep computed from a parent-closed configuration leaves a parent-closed configuration"),
+    (P + "parents_stay_active_partial", "proved", "PARTIAL (clause 4 - every active state's parent is active - in full, for history-free charts): on every coherent chart numbered in pre-order without history states whose selectable transitions are plain (decidable EntryOk / SelPlain / SelPlainF, evaluated on the generated charts: suite theorem-hypotheses), after EVERY sequence of API operations on EITHER engine the configuration is parent-closed and made of the root and real states of the chart (which is the hypothesis ConfigOk of the structural theorems of C01/C03/C05: it holds of every reachable configuration). With history states the statement is false of the code (finding hist-shared)"),
+    (P + "parents_stay_active_of_document_partial", "proved", "the same for flatten of every well-formed document (coherence and numbering are theorems there)"),
+    (P + "step_keeps_parents", "proved", "one step of either engine keeps the invariant from any state that has it"),
+    ("UscxmlVerif.Proofs.EntryClosed.descLoop_inv", "proved", "the entry set LargeMicroStep establishes (targets, their ancestors, default completions, initial transitions) is closed under parents and made of states of the chart"),
+    ("UscxmlVerif.Proofs.ParentsFast.fast_descLoop_inv", "proved", "the same for FastMicroStep's entry loop"),
     (P + "step_keeps_set", "proved", "one step of either engine keeps that invariant from any state that has it"),
 ]
 FINISH = {"level": "exploration"}   # the four structural clauses of legality are decided by exploration only
-LEAN_FILES = ["UscxmlVerif.Properties.C02", "UscxmlVerif.Proofs.CfgInv", "UscxmlVerif.Proofs.Root", "UscxmlVerif.Proofs.ExitClosed"]
+LEAN_FILES = ["UscxmlVerif.Properties.C02", "UscxmlVerif.Proofs.CfgInv", "UscxmlVerif.Proofs.Root", "UscxmlVerif.Proofs.ExitClosed", "UscxmlVerif.Proofs.EntryClosed", "UscxmlVerif.Proofs.Parents", "UscxmlVerif.Proofs.ParentsFast"]
 
 
 def cfgs_of(tokens):
@@ -90,6 +95,8 @@ def run(ctx):
     ctx.sample({"chart": charts.sexpr(d)[:500], "events": e})
     ctx.coverage["evaluations"] = sum(s["configurations"] for s in ctx.coverage["suites"].values())
     ctx.coverage["distinct_nontrivial"] = sum(s["distinct_configurations"] for s in ctx.coverage["suites"].values())
+    # the decidable hypotheses of parents_stay_active_partial on the charts of this run
+    E.hypotheses(ctx, "theorem-hypotheses", [d for d, _ in cases[:6000]])
     ctx.coverage["rule"] = "every configuration reported after every step() of both engines on random charts biased to multi-target transitions, deep initial attributes and history; Spec.Legal.legal evaluated by the Lean driver; distinct = distinct (chart, configuration) pairs"
     ctx.assumptions += ["the generated C machine is covered by C04", "validation (C19) accepts the generated documents"]
 
